@@ -1,9 +1,12 @@
 """C29 -- SMGen either refuses a design or returns valid sequences."""
 import ast
+import sys
 
 from ..astutil import call_attr, dotted, statements, isinstance_disjuncts, calls
 from ..callgraph import CallGraph
 from ..cfg import CFG
+from ..report import control
+from .. import variants
 from ..registry import concrete
 
 TECHNIQUE = "class-family registry vs isinstance refusal chain (exhaustiveness check on the AST)"
@@ -198,6 +201,27 @@ def check(ctx):
                 node = st
     ctx.check(ok, "C29.block-kind", f, "len(block.crossings) != 1", "multi-crossing blocks are refused",
               "SMGen.sample no longer refuses blocks whose number of crossings differs from 1")
+    # ---- trial count: SMGen encodes a larger trial count only by weighting the levels of one factor; whatever else makes a block
+    # longer (repeated crossings, an uncrossed factor carrying the weight) is not modelled.  The answer must therefore be compared
+    # with block.trials_per_sample() and refused when it differs: the construction of the returned SamplingResult is dominated by
+    # a refusing branch whose test measures every returned column against the block's trial count
+    from ..facts import Facts
+    F_ = Facts(f)
+    g_ = CFG(f.node)
+    outs = [st for st in F_.stmts if not isinstance(st, (ast.For, ast.If, ast.While, ast.Try, ast.With)) and
+            any(isinstance(c_, ast.Call) and dotted(c_.func) == "SamplingResult" for c_ in ast.walk(st))]
+    ctx.require(len(outs) >= 1, "SMGen.sample: construction of the SamplingResult not found")
+    guards = []
+    for st in statements(f.node):
+        if isinstance(st, ast.If) and _body_refuses(repo, mod, st.body):
+            t = str(F_.at(st, st.test))
+            if "block.trials_per_sample()" in t and "len(" in t and "execute(" in t:
+                guards.append((st, t))
+    ok_len = len(guards) >= 1 and all(any(g_.dominates(g_.node_of(gs), g_.node_of(o)) for gs, _t in guards) for o in outs)
+    ctx.check(ok_len, "C29.block-kind", f, "answer length checked against the block (%d guard)" % len(guards),
+              "a scattered-map answer whose columns are not block.trials_per_sample() long is refused before it is returned",
+              "SMGen.sample returns the search core's answer without comparing its length with block.trials_per_sample(): a block that reaches its trial count by repeating the crossing "
+              "(Repeat / Merge) or whose first non-derived factor is not in the crossing gets sequences that are too short (guards found: %s)" % [t[:80] for _s, t in guards])
     # ---- parallel lists of the weight encoding: an index list and its weight list are paired by position by the search
     # core, so they must be appended to under the same conditions (same block, same number of appends)
     R = "C29.parallel"
@@ -219,6 +243,10 @@ def check(ctx):
                               "attached to the wrong levels" % (a, na, w_, nw), b[0])
     ctx.require(n_blocks >= 4, "encode_weights: only %d blocks with paired appends found" % n_blocks)
     rule_reset(ctx)
+    modx = sys.modules[__name__]
+    control(ctx, modx, "answer returned without the length check",
+            lambda s_: variants.in_function(s_, "sweetpea/_internal/sampling_strategy/smgen.py", "SMGen.sample",
+                                            "        if any(len(vals) != block.trials_per_sample() for a in r for vals in a.values()):\n            _cexit(", "        if False:\n            _cexit("), "C29.block-kind")
     ctx.min_instances("C29.parallel", 4)
     ctx.min_instances("C29.reset", 3)
     ctx.min_instances("C29.refusal", 5)
